@@ -33,6 +33,8 @@ pub struct Norm {
     pub rename_calls: Vec<(String, String)>,
     pub str_params: Vec<String>,
     pub string_exprs: Vec<String>,
+    pub seq_args: Vec<String>,
+    pub float_casts: Option<String>,
     pub into_vec: Vec<String>,
     pub iter_on: Vec<String>,
     pub iter_vec: Vec<String>,
@@ -372,6 +374,8 @@ impl Norm {
                 .unwrap_or_default(),
             str_params: strs("str_params"),
             string_exprs: strs("string_exprs"),
+            seq_args: strs("seq_args"),
+            float_casts: req["float_casts"].as_str().map(|x| x.to_string()),
             into_vec: strs("into_vec"),
             iter_on: strs("iter_on"),
             iter_vec: strs("iter_vec"),
@@ -919,6 +923,47 @@ impl VisitMut for Norm {
                 }
             }
         }
+        // N8p (pre-order, as N8): ITER.fold(INIT, |acc, x| B) => { let mut acc = INIT; for x in ITER { acc = B; } acc } (definition of fold)
+        if let Expr::MethodCall(mc) = e {
+            if mc.method == "fold" && mc.args.len() == 2 {
+                if let Expr::Closure(c) = &mc.args[1] {
+                    if c.inputs.len() == 2 && !body_has_return(&c.body) && matches!(&c.inputs[0], Pat::Ident(_)) && matches!(&c.inputs[1], Pat::Ident(_)) {
+                        let sp = mc.method.span();
+                        let accp = c.inputs[0].clone();
+                        let acc = match &accp {
+                            Pat::Ident(pi) => pi.ident.clone(),
+                            _ => unreachable!(),
+                        };
+                        let pat = c.inputs[1].clone();
+                        let body = &c.body;
+                        let recv = &mc.receiver;
+                        let init = &mc.args[0];
+                        // (option acc_type=TYPE: the accumulator's type, which `fold` infers from its context)
+                        let ne: Expr = match &self.acc_type {
+                            Some(t) => {
+                                let ty: Type = syn::parse_str(t).expect("acc_type");
+                                parse_quote!({
+                                    let mut #acc: #ty = #init;
+                                    for #pat in #recv {
+                                        #acc = #body;
+                                    }
+                                    #acc
+                                })
+                            }
+                            None => parse_quote!({
+                                let mut #acc = #init;
+                                for #pat in #recv {
+                                    #acc = #body;
+                                }
+                                #acc
+                            }),
+                        };
+                        *e = ne;
+                        self.log("N8p-fold-to-loop", sp);
+                    }
+                }
+            }
+        }
         // N8 (pre-order so that the produced loop gets the for-loop rules N8e/N9/N18): ITER.for_each(|p| B) => for p in ITER { B }
         if let Expr::MethodCall(mc) = e {
             if mc.method == "for_each" && mc.args.len() == 1 {
@@ -1320,6 +1365,15 @@ impl VisitMut for Norm {
                     }
                 }
             }
+            // N2f (option float_casts=TYPE): `E as f64` with E of integer type TYPE is a pure but uninterpreted function of E
+            // (`hq_TYPE_as_f64`, declared in the unit); Verus gives a cast to a float no meaning at all
+            Expr::Cast(c) if self.float_casts.is_some() && matches!(&*c.ty, Type::Path(tp) if tp.path.is_ident("f64")) => {
+                let f = Ident::new(&format!("hq_{}_as_f64", self.float_casts.as_ref().unwrap()), Span::call_site());
+                let inner = &c.expr;
+                let ne: Expr = parse_quote!(#f(#inner));
+                *e = ne;
+                self.log("N2f-int-as-f64", Span::call_site());
+            }
             Expr::MethodCall(mc) => {
                 let name = mc.method.to_string();
                 let sp = mc.method.span();
@@ -1332,6 +1386,33 @@ impl VisitMut for Norm {
                     });
                     if let Some((_, to)) = hit {
                         mc.method = Ident::new(to, sp);
+                    }
+                }
+                // N8q (option seq_args=METHOD,..: methods that consume an `impl IntoIterator` argument as a sequence): an argument
+                // `ITER.map(|p| B)` is passed as the Vec of the values it yields (push loop; laziness dropped)
+                if self.seq_args.iter().any(|m| *m == name) {
+                    for a in mc.args.iter_mut() {
+                        let ne: Option<Expr> = match &*a {
+                            Expr::MethodCall(inner) if inner.method == "map" && inner.args.len() == 1 => match &inner.args[0] {
+                                Expr::Closure(c) if c.inputs.len() == 1 && !body_has_return(&c.body) => {
+                                    let it = &inner.receiver;
+                                    let pat = match c.inputs[0].clone() {
+                                        Pat::Type(pt) => *pt.pat,
+                                        p => p,
+                                    };
+                                    let body = &c.body;
+                                    self.tmp_counter += 1;
+                                    let acc = Ident::new(&format!("__hq_seq{}", self.tmp_counter), sp);
+                                    Some(parse_quote!({ let mut #acc = Vec::new(); for #pat in #it { #acc.push(#body); } #acc }))
+                                }
+                                _ => None,
+                            },
+                            _ => None,
+                        };
+                        if let Some(ne) = ne {
+                            *a = ne;
+                            self.log("N8q-map-argument-to-vec", sp);
+                        }
                     }
                 }
                 match name.as_str() {
